@@ -73,7 +73,8 @@ pub proof fn contract_c07_2_trial_branch(s: L_State, d: int)
 pub proof fn contract_c07_2_liquid_trial_normalised(s: L_State, d: int)
     requires
         0 <= d < components(s.eos), s.molefracs.len == components(s.eos),
-        rsum(s.molefracs.len, s.molefracs.at) - (s.molefracs.at)(d) != 0real,
+        // some other component is present (mole fractions are not negative)
+        rsum(s.molefracs.len, s.molefracs.at) - (s.molefracs.at)(d) > 0real,
     ensures
         define_trial_state__new_npt_arg3(s, d) is Ok,
         define_trial_state__new_npt_arg3(s, d)->Ok_0.len == components(s.eos),
@@ -86,8 +87,20 @@ pub proof fn contract_c07_2_liquid_trial_normalised(s: L_State, d: int)
     let den = rsum(x.len, x.at) - (x.at)(d);
     let f = (1real - K_X_DOMINANT()) / den;
     lemma_sum_dominant(n, xt.at, x.at, d, K_X_DOMINANT(), f);
-    assert(((1real - K_X_DOMINANT()) / den) * den == 1real - K_X_DOMINANT()) by(nonlinear_arith) requires den != 0real;
+    assert(((1real - K_X_DOMINANT()) / den) * den == 1real - K_X_DOMINANT()) by(nonlinear_arith) requires den > 0real;
 }
+/// the nearly pure trial when every other component is absent (a pure feed described by a mixture model): the dominant
+/// component alone, the absent ones stay absent.  (Over the reals 0 * (c / 0) = 0 whatever c / 0 is, so this obligation
+/// held for the pinned code as well; in floating point that product was NaN - defect F8, found by the witness search.)
+pub proof fn contract_c07_2_liquid_trial_others_absent(s: L_State, d: int)
+    requires
+        0 <= d < components(s.eos), s.molefracs.len == components(s.eos),
+        forall|i: int| 0 <= i < s.molefracs.len && i != d ==> #[trigger] (s.molefracs.at)(i) == 0real,
+    ensures
+        define_trial_state__new_npt_arg3(s, d) is Ok,
+        (define_trial_state__new_npt_arg3(s, d)->Ok_0.at)(d) == K_X_DOMINANT(),
+        forall|i: int| 0 <= i < s.molefracs.len && i != d ==> #[trigger] (define_trial_state__new_npt_arg3(s, d)->Ok_0.at)(i) == 0real,
+{}
 /// the vapor-like trial: mole fractions proportional to x_i * phi_i of the analysed state (u = the unnormalised
 /// composition, observed where it is bound), normalised to one
 pub proof fn contract_c07_2_vapor_trial_normalised(s: L_State, d: int)
